@@ -168,7 +168,7 @@ def observe_file_api(case) -> dict:
                     else:
                         code = program.assemble(case.get("fname", FNAME), Path("out.bin"), case.get("mapping"))
                 data = Path("out.bin").read_bytes() if Path("out.bin").exists() else None
-                out = {"ret": code, "announced": any("Success" in m for m in cap.messages),
+                out = {"ret": code, "announced": any("Success" in m for m in cap.messages), "log": "\n".join(cap.messages)[-2000:],
                        "file": list(data) if data is not None else None}
                 if code == 0 and case.get("symfile"):
                     program.exports_symbol_file("out.sym")
@@ -238,7 +238,8 @@ def observe_cli(case) -> dict:
             return {"timeout": True}
         data = Path(d, "out.bin").read_bytes() if Path(d, "out.bin").exists() else None
         return {"exit": p.returncode, "announced": "Success" in (p.stdout + p.stderr),
-                "file": list(data) if data is not None else None, "stderr": (p.stderr or "")[-300:]}
+                "file": list(data) if data is not None else None, "stderr": (p.stderr or "")[-300:],
+                "stderr_full": ((p.stderr or "") + (p.stdout or ""))[-3000:]}
 
 
 def observe(case):
@@ -326,14 +327,38 @@ def spec_term(case, ob) -> str:
     if t == "none":
         return "XNone"
     if t == "c12":
-        return "XC12"
+        # flat images too large to ship to Coq (a block high up in the ROM) are compared here with the image of the
+        # in-memory blocks, by the same rule as Oracle/E2Eo.v spec_image (later writes win, gaps are zero bytes)
+        big_ok = []
+        mem = (ob.get("text") or {}).get("ok")
+        if mem is not None and case.get("format") == "sfc":
+            img = bytearray()
+            for data, addr in mem["blocks"]:
+                if data and addr >= 0:
+                    if len(img) < addr + len(data):
+                        img.extend(bytes(addr + len(data) - len(img)))
+                    img[addr:addr + len(data)] = bytes(data)
+            for fe in ("api", "cli"):
+                f = (ob.get(fe) or {}).get("file")
+                if f is not None and len(f) > MAX_FILE:
+                    big_ok.append(bytes(f) == bytes(img))
+        return f"(XAnd XC12 (XFrontSays {C.cbool(all(big_ok))}))" if big_ok else "XC12"
     if t == "c14":
         return f"(XC14 {C.cbool(sp['must_fail'])})"
     if t == "c15":
         return "XC15"
     if t == "c17":
         col = "None" if sp.get("col") is None else f"(Some {C.z(sp['col'])})"
-        return f"(XC17 {C.cstr(sp['file'])} {C.z(sp['line'])} {col} {C.cstr(sp['text'])})"
+        x17 = f"(XC17 {C.cstr(sp['file'])} {C.z(sp['line'])} {col} {C.cstr(sp['text'])})"
+        # the front ends that were run report the same place in what they log / print ("file:line" followed by ":col"
+        # or a blank, then the quoted line on a line of its own)
+        where = f"{sp['file']}:{sp['line']}" + (f":{sp['col']}" if sp.get("col") is not None else " ")
+        seen = []
+        if ob.get("api") is not None and not ob["api"].get("timeout"):
+            seen.append(where in (ob["api"].get("log") or "") and sp["text"].strip() in (ob["api"].get("log") or ""))
+        if ob.get("cli") is not None and not ob["cli"].get("timeout"):
+            seen.append(where in (ob["cli"].get("stderr_full") or ""))
+        return f"(XAnd {x17} (XFrontSays {C.cbool(all(seen))}))"
     if t == "twin":
         return f"(XTwin {e2eobs_term(ob.get('twin'))} {C.cbool(sp.get('labels', True))})"
     if t == "twin-class":
